@@ -19,6 +19,9 @@ def corrupt(lines):
 
 def run(ctx):
     run_family(ctx, "c18", 2200)
+    # numeric builtins inside random arithmetic programs, every call node judged from the observed values of its arguments
+    nd = ctx.record("nodes-arith", "nodes", ["-n", 6000 if ctx.thorough else 400, "-profile", "arith", "-seed", ctx.seed * 100 + 68])
+    ctx.validate("nodes-arith-validate", "trace/Trace_Nodes.tla", "trace/Trace_Nodes.cfg", nd, "nodes", shards=16 if ctx.thorough else 4, timeout=3400, cut="start")
     # sqrt, exp, ln, log: recorded from the real builtins, judged by the fixed-point oracle FTranscend
     tr = ctx.record("math", "math", ["-n", 900 if ctx.thorough else 48])
     ctx.validate("math-validate", "trace/Trace_Math.tla", "trace/Trace_Math.cfg", tr, "math", shards=16 if ctx.thorough else 12, timeout=3400)
